@@ -148,6 +148,7 @@ def canon_item(item, depth=0):
         return ("f", F.canon(item[1]))
     if k == "each":
         nb = ("var", f"_q{depth}")
+        item = _positional(item)
         m = {item[1]: nb}
         return ("each", F.subst_any(item[2], m), canon_pred(F.subst_any(item[3], m)), canon_item(F.subst_any(item[4], m), depth + 1))
     if k == "soft":
@@ -155,6 +156,37 @@ def canon_item(item, depth=0):
     if k == "w":
         return ("w", canon_item(item[1], depth), item[2])
     return item
+
+
+def _replace(x, old, new):
+    if x == old:
+        return new
+    if isinstance(x, tuple):
+        return tuple(_replace(i, old, new) for i in x)
+    if isinstance(x, frozenset):
+        return frozenset(_replace(i, old, new) for i in x)
+    return x
+
+
+def _positional(item):
+    """`for i in range(len(S))` using S[i] and i says the same as `for x in S` (or enumerate) using x and its position: the
+    index form is rewritten to the member form when every use of i is one of these two."""
+    _, b, fam, g, body = item
+    if not (isinstance(fam, tuple) and fam[:1] == ("members",) and isinstance(fam[1], tuple) and fam[1][:1] == ("range",) and len(fam[1]) == 3 and fam[1][1] == F.lin_const(0)):
+        return item
+    hi = fam[1][2]
+    if not (isinstance(hi, tuple) and len(hi) == 2 and hi[1] == 0 and len(hi[0]) == 1 and hi[0][0][1] == 1 and isinstance(hi[0][0][0], tuple) and hi[0][0][0][:1] == ("len",)):
+        return item
+    S = hi[0][0][0][1]
+    at = ("at", S, ("lin", F.lin_term(("elem", b, "pos"))))
+    fresh = ("var", "_pos_")
+    g2, body2 = _replace(g, at, fresh), _replace(body, at, fresh)
+    pos = ("pos", fresh, ("members", S))
+    g2, body2 = _replace(g2, ("elem", b, "pos"), pos), _replace(body2, ("elem", b, "pos"), pos)
+    if F.mentions(g2, [b]) or F.mentions(body2, [b]):
+        return item
+    g2, body2 = F.subst_any(g2, {fresh: b}), F.subst_any(body2, {fresh: b})
+    return ("each", b, ("members", S), g2, body2)
 
 
 def canon_pred(p):
@@ -321,6 +353,33 @@ def decided(path: PathResult, pred):
         if k == pred:
             return (not v) if neg else v
     return None
+
+
+def pred_on_path(path: PathResult, pred):
+    """Value of a Boolean combination of predicates under the decisions of a path (None when undetermined)."""
+    if not isinstance(pred, tuple) or not pred:
+        return None
+    if pred[0] == "const":
+        return bool(pred[1])
+    if pred[0] == "not":
+        v = pred_on_path(path, pred[1])
+        return None if v is None else not v
+    if pred[0] in ("and", "or"):
+        vals = [pred_on_path(path, q) for q in pred[1]]
+        if pred[0] == "and":
+            return False if any(v is False for v in vals) else (True if all(v is True for v in vals) else None)
+        return True if any(v is True for v in vals) else (False if all(v is False for v in vals) else None)
+    return decided(path, pred)
+
+
+def value_on_path(path: PathResult, v):
+    """A symbolic Boolean that the path's own decisions determine is that constant on this path (`flag = bool(xs)`
+    computed before the branch on xs)."""
+    if isinstance(v, PredV):
+        b = pred_on_path(path, v.p)
+        if b is not None:
+            return Const(b)
+    return v
 
 
 # ----------------------------------------------------------------------------------------------
@@ -513,6 +572,15 @@ K = F.lin_term("k")
 
 def reccall_summary(I, fi, args, kwargs, node):
     """Summary used when an operator's `_inference` is analysed: the recursive core has its own obligations."""
+    # arguments passed by keyword are put in their parameter's position: rules read the call by role, not by spelling
+    args, kwargs = list(args), dict(kwargs)
+    if fi is not None and kwargs:
+        params = [a.arg for a in fi.node.args.posonlyargs + fi.node.args.args]
+        for name in params[len(args):]:
+            if name in kwargs:
+                args.append(kwargs.pop(name))
+            else:
+                break
     I.log("reccall", node, func=fi.qualname, args=tuple(args), kwargs=dict(kwargs), snap=I.snapshot_args(args, kwargs))
     return Sym(("rec0", fi.qualname), "bool")
 
